@@ -22,6 +22,15 @@ Time is owned: directory mtimes are set from a logical clock that advances 1 s p
 does not touch the directory mtime (real behaviour).  Since the lookups happen on every state the
 cache is always as fresh as a user who looks after every change could have it.
 
+Events also land IN THE MIDDLE of a cache refresh: the directory-listing seam the cache uses
+(xonsh.commands_cache.executables_in) is rebound in that module's namespace, and the event kind
+`during-scan(<create exe | delete | chmod>)` bumps the directory mtime (so that the next refresh
+re-lists it) and arms the file-system event, which is then performed - with its own logical-clock
+mtime bump, like any other event - right after the listing of its directory has been read and
+before the refresh continues.  The answer of the interrupted refresh itself is not judged; from
+the next complete refresh on (one more lookup, then all views) everything has to be right.  The
+event is offered only while its directory is on the effective $PATH (otherwise it is never listed).
+
 Only mismatches that are NEW on a state (not already present, identically, on the state before the
 event) are reported, and a mismatch of a cache view is classified by REPAIR TRANSFORMS, so that
 keys name root causes and not inputs:
@@ -32,7 +41,9 @@ keys name root causes and not inputs:
   * otherwise the view is STALE and is blamed on the event the cache failed to notice: the last
     event E of the history such that renewing the cache object right after E heals the view while
     renewing it just before E does not -> `<view>:stale-after-<class of E>` (chmod+x, chmod-x,
-    path-edit, cd, create-*, delete).
+    path-edit, cd, create-*, delete, during-scan(...)); a blamed during-scan event whose view is
+    just as wrong when the same event lands between two complete refreshes is attributed to the
+    plain event class (chmod is never noticed, whenever it happens).
 
 Does not require: equal path spelling; any particular error text/kind for a name that resolves to
 nothing; behaviour of $XONSH_COMMANDS_CACHE_READ_DIR_ONCE directories (empty here); Windows PATHEXT
@@ -89,6 +100,7 @@ ALPHA = {
         "paths": (0, 1, 2, 5, 8),
         "inplace": (["path.append", D2], ["path.remove", D1]),
         "cd": ("w", "d1"),
+        "scan": (("d1", "x"), ("d2", "x")),
     },
     # quick tier (a subset of "mid")
     "quick": {
@@ -97,6 +109,7 @@ ALPHA = {
         "paths": (0, 1, 2, 5, 6, 7, 8, 9),
         "inplace": (["path.append", D2], ["path.insert0", D2], ["path.remove", D1]),
         "cd": ("w", "R"),
+        "scan": (("d1", "x"), ("d2", "x"), ("d1", "y")),
     },
     "mid": {
         "dirs": ("d1", "d2", "w"),
@@ -111,6 +124,7 @@ ALPHA = {
         "paths": (0, 1, 2, 3, 4, 5, 6, 7, 8, 9),
         "inplace": (["path.append", D2], ["path.insert0", D2], ["path.remove", D1]),
         "cd": ("w", "R", "d1"),
+        "scan": (("d1", "x"), ("d2", "x"), ("w", "x"), ("d1", "y")),
     },
     "full": {
         "dirs": ("d1", "d2", "d3", "w"),
@@ -132,11 +146,13 @@ ALPHA = {
             ["path.insert0", D3],
         ),
         "cd": ("w", "R", "d1", "d2"),
+        "scan": (("d1", "x"), ("d2", "x"), ("d3", "x"), ("w", "x"), ("d1", "y"), ("d2", "y")),
     },
 }
 ALL_DIRS = ("d1", "d2", "d3", "w")
 MAX_PATH_LEN = 4
 
+_ACTIVE = None  # the harness the wrapped directory-listing seam reports to
 _MEMO_DIR = None  # shared (across worker processes) store of reference cross-checks, set by run()
 
 
@@ -150,6 +166,8 @@ def evkind(ev):
         return "chmod" + ev[3]
     if k == "cd":
         return "cd"
+    if k == "during-scan":
+        return f"during-scan({evkind(ev[1])})"
     return {"path=": "path-assign", "path.append": "path-append", "path.insert0": "path-insert", "path.remove": "path-remove"}[k]
 
 
@@ -194,11 +212,16 @@ class Harness:
         from xonsh.tools import XonshError
 
         self.CommandsCache, self.locate_executable, self.SubprocSpec, self.XonshError = CommandsCache, locate_executable, SubprocSpec, XonshError
+        self._install_scan_seam()
+        self._armed = None  # file-system event to perform right after the next listing of its directory
+        self._plain_scan = set()  # history indices whose during-scan event is moved out of the refresh (repair transform)
         self._memo = {}
         self._pre = (None, None)
         self._stash = None
         self.hist = []
         self.clock = 0
+        self.scan_fired = 0
+        self._scan_n = [0, 0]
         self.m_path = []
         self.m_cwd = "w"
 
@@ -235,6 +258,40 @@ class Harness:
         st = os.stat(self.R)
         self.dirids[(st.st_dev, st.st_ino)] = "R"
 
+    def _install_scan_seam(self):
+        """Rebind xonsh.commands_cache.executables_in (the directory listing the cache refresh uses) so
+        that an armed file-system event lands right after the listing of its directory has been
+        read completely and before the refresh continues."""
+        global _ACTIVE
+        import xonsh.commands_cache as ccmod
+
+        if not getattr(ccmod.executables_in, "_c08_seam", False):
+            orig = ccmod.executables_in
+
+            def executables_in(path):
+                yield from orig(path)
+                if _ACTIVE is not None:
+                    _ACTIVE._after_listing(path)
+
+            executables_in._c08_seam = True
+            ccmod.executables_in = executables_in
+        _ACTIVE = self
+
+    def _count_scan(self, fired):
+        """Measured evidence: checked during-scan transitions / those whose event really landed mid-refresh."""
+        self._scan_n[0] += 1
+        self._scan_n[1] += 1 if fired else 0
+        if _MEMO_DIR:
+            with open(os.path.join(_MEMO_DIR, f"scan.{os.getpid()}.cnt"), "w") as f:
+                json.dump(self._scan_n, f)
+
+    def _after_listing(self, path):
+        ev = self._armed
+        if ev is not None and self._dirkey(path) == self._dirkey(self.p(ev[1])):
+            self._armed = None
+            self._do_fs(ev)
+            self.scan_fired += 1
+
     def cc(self):
         return self.xsh.commands_cache
 
@@ -262,7 +319,19 @@ class Harness:
         self.xsh.commands_cache = self.CommandsCache(env, self.xsh.aliases)
         self.hist = []
         self._stash = None
+        self._armed = None
         self._lookup()
+
+    def _settle(self, ev):
+        """The lookups that follow an event.  After a during-scan event the first one is the
+        refresh the event interrupts (its answer may legitimately be old); the second is the next
+        complete refresh, from which on every view has to be right."""
+        self._lookup()
+        if ev[0] == "during-scan":
+            if self._armed is not None:  # its directory was not listed: the event simply happens now
+                e, self._armed = self._armed, None
+                self._do_fs(e)
+            self._lookup()
 
     def _lookup(self):
         """The lookup every state gets (all cache views start with the same update_cache())."""
@@ -272,9 +341,8 @@ class Harness:
             return None
 
     # -------------------------------------------------------------- events
-    def apply(self, ev):
+    def _do_fs(self, ev):
         k = ev[0]
-        env = self.xsh.env
         if k == "mk":
             d, n, kind = ev[1], ev[2], ev[3]
             path = self.p(d, n)
@@ -295,6 +363,23 @@ class Harness:
             self._touch(ev[1])
         elif k == "chmod":
             os.chmod(self.p(ev[1], ev[2]), 0o755 if ev[3] == "+x" else 0o644)
+        else:
+            raise AssertionError(ev)
+
+    def apply(self, ev):
+        k = ev[0]
+        env = self.xsh.env
+        if k in ("mk", "rm", "chmod"):
+            self._do_fs(ev)
+        elif k == "during-scan":
+            # the directory changed just before (an unrelated temporary file came and went), so the
+            # next refresh re-lists it; the event proper lands in the middle of that refresh
+            self._touch(ev[1][1])
+            if len(self.hist) in self._plain_scan:
+                self._lookup()  # the refresh completes first, the event lands between two lookups
+                self._do_fs(ev[1])
+            else:
+                self._armed = ev[1]
         elif k == "path=":
             self.m_path = list(ev[1])
             env["PATH"] = [self.sub(t) for t in ev[1]]
@@ -375,6 +460,20 @@ class Harness:
                     out.append(["chmod", d, n, "+x"])
                 elif cur == "E":
                     out.append(["chmod", d, n, "-x"])
+        cwd = os.getcwd()
+        on_path = {self._dirkey(os.path.join(cwd, self.sub(ent))) for ent in self.m_path}
+        for d, n in cfg.get("scan", ()):
+            if self._dirkey(self.p(d)) not in on_path:
+                continue  # never listed: same as the plain event
+            cur = fs[d].get(n)
+            if cur is None:
+                out.append(["during-scan", ["mk", d, n, "E"]])
+            else:
+                out.append(["during-scan", ["rm", d, n]])
+                if cur == "N":
+                    out.append(["during-scan", ["chmod", d, n, "+x"]])
+                elif cur == "E":
+                    out.append(["during-scan", ["chmod", d, n, "-x"]])
         for i in cfg["paths"]:
             if PATHS[i] != self.m_path:
                 out.append(["path=", list(PATHS[i])])
@@ -611,10 +710,26 @@ class Harness:
         self.reset()
         for j, e in enumerate(hist):
             self.apply(e)
-            if j == i:
+            if j == i and e[0] != "during-scan":
                 self.xsh.commands_cache = self.CommandsCache(self.xsh.env, self.xsh.aliases)
-            self._lookup()
+            self._settle(e)
+            if j == i and e[0] == "during-scan":  # "after the event" = after the refresh it interrupted
+                self.xsh.commands_cache = self.CommandsCache(self.xsh.env, self.xsh.aliases)
+                self._lookup()
         return self._cmp(view, name, self.view(view, name), self.expected(name)) is None
+
+    def _timing_matters(self, hist, i, view, name):
+        """Repair transform for a blamed during-scan event: does the view become right when the same
+        event lands between two complete refreshes instead of in the middle of one?"""
+        self._plain_scan = {i}
+        try:
+            self.reset()
+            for e in hist:
+                self.apply(e)
+                self._settle(e)
+            return self._cmp(view, name, self.view(view, name), self.expected(name)) is None
+        finally:
+            self._plain_scan = set()
 
     def _classify(self, found):
         """found: {(view, name): mismatch} (new on this state) -> violation dicts.  May clobber the
@@ -678,6 +793,8 @@ class Harness:
             while i > 0 and self._heals(hist, i - 1, view, name):
                 i -= 1
             blamed = eclass(hist[i]) if hist else "initial"
+            if hist and hist[i][0] == "during-scan" and not self._timing_matters(hist, i, view, name):
+                blamed = eclass(hist[i][1])  # just as stale when the event happens between two lookups
             case["blamed_event_index"] = i
             case["blamed_event"] = hist[i] if hist else None
             viols.append(
@@ -697,7 +814,7 @@ class Harness:
     def step(self, ev, check):
         if not check:
             self.apply(ev)
-            self._lookup()
+            self._settle(ev)
             return []
         hk = common.jdump(self.hist)
         if self._pre[0] == hk:
@@ -705,8 +822,11 @@ class Harness:
         else:
             pre = {k: v["sig"] for k, v in self.mismatches().items()}
             self._pre = (hk, pre)
+        f0 = self.scan_fired
         self.apply(ev)
-        self._lookup()
+        self._settle(ev)
+        if ev[0] == "during-scan":
+            self._count_scan(self.scan_fired - f0)
         viols = []
         envp = [self.rel(x) for x in self.xsh.env["PATH"]]
         if envp != self.m_path:
@@ -777,8 +897,17 @@ def _phase(ctx, level, d0, dmax, deadline):
     _LEVEL = level
     best, capped = None, None
     for d in range(d0, dmax + 1):
+        for fn in os.listdir(_MEMO_DIR):
+            if fn.startswith("scan."):
+                os.unlink(os.path.join(_MEMO_DIR, fn))
         t = time.time()
         r = seqx.bfs(_factory, d, ctx, budget_s=None, chunk=2)
+        r["scan"] = [0, 0]
+        for fn in os.listdir(_MEMO_DIR):
+            if fn.startswith("scan."):
+                with open(os.path.join(_MEMO_DIR, fn)) as f:
+                    a, b = json.load(f)
+                r["scan"] = [r["scan"][0] + a, r["scan"][1] + b]
         dt = max(time.time() - t, 1e-3)
         h = seqx._H
         h.reset()
@@ -841,6 +970,8 @@ def run(ctx):
         exhaustive=all(ph["exhaustive"] for ph in phases),
         caps_hit=[f"{ph['level']}: {ph['capped']}" for ph in phases if ph["capped"]] or None,
         phases=[{k: ph[k] for k in ("level", "alphabet", "depth_requested", "depth_completed", "states", "transitions", "level_sizes", "capped")} for ph in phases],
+        during_scan_transitions=sum(ph["scan"][0] for ph in phases),
+        during_scan_events_landed_mid_refresh=sum(ph["scan"][1] for ph in phases),
         lookups_per_state=len(LOOKUPS),
         views_per_lookup=len(SEL_VIEWS) + len(BOOL_VIEWS),
         distinct_fs_path_cwd_states_all_phases=n_states,
@@ -855,6 +986,7 @@ def run(ctx):
     ctx.assumptions += [
         "directory mtimes advance by 1 s per create/delete (operations further apart than the file system's timestamp granularity); chmod leaves the directory mtime alone (real behaviour)",
         "a lookup happens on every state (the cache is refreshed after every event); histories with unobserved intermediate states are not explored separately",
+        "during-scan events interrupt the refresh right after the listing of the event's own directory (the only interleaving point the listing seam offers per directory); the interrupted lookup's own answer is not judged",
         "(state, name) pairs on which /bin/sh, shutil.which and the reference search disagree (e.g. a lone empty $PATH) are skipped and counted",
         "test executables are ELF copies of readlink, so SubprocSpec keeps binary_loc on the file itself (no shebang rewriting)",
     ]
